@@ -40,7 +40,7 @@ func runC06(c *Ctx) {
 	ruleNoLocalInputInGroup(c, "R6.4")
 	ruleEchoBroadcastOrder(c, "R6.5")
 	ruleDecodedElementsNotShared(c, "R6.7")
-	ruleReshareConfig(c, "R6.8")  // old and new side of a resharing get the parameters of their own epoch
+	ruleReshareConfig(c, "R6.8") // old and new side of a resharing get the parameters of their own epoch
 	ruleBroadcastReachesEverySender(c, "R6.9")
 	ruleSignedCoverage(c, "R6.6") // the terms the final group is built from are the terms every node verified: all of them are signed
 }
@@ -358,6 +358,7 @@ func runC13(c *Ctx) {
 	ruleNoDestructiveStepBeforeKeyFiles(c, "R13.6")
 	ruleAppendStorePut(c, "R13.8")      // the chain on disk is gap-free: the append layer checks and writes a round in one critical section
 	ruleSaveReplacesContent(c, "R13.9") // a key file that is rewritten holds exactly the new document
+	ruleLoadOnlyAfterCompletedDKG(c, "R13.10")
 	ruleErrorsOfPersistenceChecked(c, "R13.7", "internal/dkg", "internal/core", "common/key", "internal/chain/boltdb")
 }
 
@@ -689,4 +690,41 @@ func executedEveryIteration(in ssa.Instruction) (bool, string) {
 		return false, "a path through the loop body returns to the loop header without sending: some sender is skipped"
 	}
 	return true, "every path through the loop body passes the send"
+}
+
+// R13.10: on restart the group and share files are required only for a beacon whose database records a completed DKG
+// (or whose v1 files were just migrated into one). A node that stopped while its first DKG was in flight, or after it
+// failed, has a current record but nothing completed and no files: it must come back as a node waiting for a DKG.
+func ruleLoadOnlyAfterCompletedDKG(c *Ctx, rule string) {
+	c.ranRules[rule] = true
+	fn := c.P.Fn("internal/core.(*DrandDaemon).LoadBeaconFromStore")
+	if !c.Anchor(rule, "internal/core.(*DrandDaemon).LoadBeaconFromStore", fn != nil) {
+		return
+	}
+	n := 0
+	for _, ci := range callsIn(fn, func(ci ssa.CallInstruction) bool {
+		return strings.HasSuffix(calleeName(ci), "internal/core.BeaconProcess).Load")
+	}) {
+		n++
+		mig := callTo(fn, "Migrate")
+		ok := mustCross(ci.(ssa.Instruction), func(e edge) bool {
+			for _, cj := range edgeConjuncts(e) {
+				x, isEq, isNil := nilTest(cj.cond)
+				if isNil && strings.HasSuffix(pathOf(x), ".Complete") && cj.truth != isEq {
+					return true // Complete != nil
+				}
+			}
+			if mig != nil {
+				for _, ev := range errValuesOf(mig) {
+					if okEdge(e, ev) {
+						return true
+					}
+				}
+			}
+			return false
+		})
+		c.Ok(rule, "LoadBeaconFromStore loads group and share only for a completed (or just migrated) DKG", shortPos(c.P, ci), ok,
+			"every path to BeaconProcess.Load crosses `status.Complete != nil` or the success edge of Migrate")
+	}
+	c.Floor(rule, "BeaconProcess.Load calls on the restart path", n, 1)
 }
